@@ -49,6 +49,11 @@ def all_plans():
                     for k in ks:
                         plans.append({'kind': kind, 'point': point, 'file': which, 'k': k,
                                       'workers': workers, 'nfiles': nfiles})
+    # a worker that sits inside the lock across a poll of the info thread, then dies
+    for point in ('alloc_inside', 'sync_inside'):
+        for workers, nfiles in ((2, 3), (4, 6)):
+            plans.append({'kind': 'exit', 'point': point, 'file': 0, 'k': 1, 'hold': 6,
+                          'workers': workers, 'nfiles': nfiles})
     return plans
 
 
@@ -156,7 +161,8 @@ def judge(rep, item, mo, control):
     rep.count('kind_' + plan['kind'])
     rep.count('point_' + plan['point'])
     name = f"{plan['kind']}@{plan['point']} file {plan['file']}/{plan['nfiles']} " \
-           f"workers {plan['workers']} k={plan.get('k', 1)}"
+           f"workers {plan['workers']} k={plan.get('k', 1)}" + \
+           (f" hold={plan['hold']}s" if plan.get('hold') else '')
     if 'start' not in r:
         raise core.Infra(f"fault plan did not start: {impl['tail']}")
 
@@ -223,6 +229,7 @@ def run(tier, seed, replay_case=None):
         rng = random.Random(seed)
         must = [p for p in plans if p['kind'] == 'exit' and p['workers'] == 2 and p['file'] == 0
                 and p['point'] in ('alloc_inside', 'sync_inside', 'alloc_before', 'before_open')]
+        # (includes the two hold=6 plans for 2 workers)
         must += [p for p in plans if p['kind'] == 'raise' and p['workers'] == 2 and p['file'] == 1
                  and p['point'] in ('mid_file', 'sync_inside', 'before_open')]
         rest = [p for p in plans[2:] if p not in must]
